@@ -122,6 +122,9 @@ def canary_text(text, meta):
         # verus! { adds 1, impl adds 1
         if d != 1 + (1 if owners else 0):
             continue
+        if owners and ' for ' in re.sub(r'<[^<>]*>', '', impl_hdrs[owners[-1]]):
+            # a method of a trait impl cannot be duplicated under another name inside that impl: no canary for it
+            continue
         sig = text[mm.start():j]
         sigm = m[mm.start():j]
         prev = text[max(0, line_start - 200):line_start]
